@@ -134,7 +134,8 @@ Proof. exact slice_proof_verifies_partial. Qed.
 Print Assumptions C17_slice_proof_verifies_partial.
 
 Example C17_slice_proof_verifies_partial_nonvacuous :
-  exists s, slice sguards_fixed ex_slice_db [] "th1" = Some s /\ scope_agree ex_slice_db s "th1" = true /            mm_verify ex_slice_db "th1" = true.
+  exists s, slice sguards_fixed ex_slice_db [] "th1" = Some s /\ scope_agree ex_slice_db s "th1" = true /\
+            mm_verify ex_slice_db "th1" = true.
 Proof. eexists. split; [vm_compute; reflexivity|]. split; vm_compute; reflexivity. Qed.
 
 Example C17_slice_proof_verifies_instance :
